@@ -381,13 +381,17 @@ impl OutgoingDataFlowController for StreamFlowController {
                 .request_delivery(self.max_stream_data);
         }
 
+        // Connection credit is only requested for what the stream window allows this
+        // stream to send; otherwise the acquired window (which is announced as the final
+        // size of a RESET_STREAM) could exceed the peer's MAX_STREAM_DATA limit.
+        let requested_offset = end_offset.min(self.max_stream_data);
         self.highest_requested_connection_flow_control_window = core::cmp::max(
-            end_offset,
+            requested_offset,
             self.highest_requested_connection_flow_control_window,
         );
         self.try_acquire_connection_window();
 
-        if end_offset > self.acquired_connection_flow_controller_window {
+        if requested_offset > self.acquired_connection_flow_controller_window {
             // Can't send due to being blocked on the connection flow control window
             self.state = StreamFlowControllerState::BlockedOnConnectionWindow;
         }
